@@ -265,3 +265,68 @@ def coverage(obs):
             "rule": "case = one schedule (N barrier-released clients, P concurrent pollers, scripted agent with permuted/delayed fetch+post, duplicate posts, posts for unknown IDs, client cancellations); distinct by hash of the observed event-kind sequence; non-trivial when at least 2 requests are in flight",
             "samples": [{"index": s["index"], "clients": s["clients"], "pollers": s["pollers"], "first_events": s["events"][:6], "first_result": s["results"][0]} for s in scheds[:2]],
             "input_distribution": dict(hist), "race_detector": obs["race"], "race_reports": len(obs["races"])}
+
+
+def idle_poll_run(server_bin, idle_s=16.5):
+    """Black box, the proxy binary itself (its main(), not newProxy()): a pending-list poll that has already waited `idle_s`
+    seconds (its limit is 30 s) when a client request arrives must still be answered with that request's ID."""
+    import http.client, json, socket, subprocess, threading, time
+    s = socket.socket(); s.bind(("127.0.0.1", 0)); port = s.getsockname()[1]; s.close()
+    proc = subprocess.Popen([server_bin, "-port", str(port)], stdout=subprocess.DEVNULL, stderr=subprocess.DEVNULL)
+    res = {"kind": "idle-poll", "idle_s": idle_s}
+    try:
+        for _ in range(100):
+            try:
+                socket.create_connection(("127.0.0.1", port), timeout=0.2).close()
+                break
+            except OSError:
+                time.sleep(0.05)
+        out = {}
+
+        def client():
+            time.sleep(idle_s)
+            out["client_sent_at"] = time.time()
+            try:
+                c = http.client.HTTPConnection("127.0.0.1", port, timeout=20)
+                c.request("GET", "/late?x=1")
+                r = c.getresponse()
+                out["client_status"], out["client_body"] = r.status, r.read().decode(errors="replace")[:100]
+            except Exception as e:     # noqa
+                out["client_err"] = repr(e)
+        th = threading.Thread(target=client)
+        t0 = time.time()
+        th.start()
+        ids = []
+        polls = 0
+        # poll like the agent: one list call after the other; the first one is the long one
+        while time.time() - t0 < idle_s + 8 and not ids:
+            polls += 1
+            try:
+                c = http.client.HTTPConnection("127.0.0.1", port, timeout=40)
+                c.request("GET", "/agent/pending", headers={"X-Inverting-Proxy-Backend-ID": "verif"})
+                r = c.getresponse()
+                body = r.read()
+                res.setdefault("poll_statuses", []).append(r.status)
+                if r.status == 200:
+                    ids = json.loads(body or b"[]")
+            except Exception as e:     # noqa
+                res.setdefault("poll_errors", []).append(repr(e)[:120])
+                time.sleep(0.2)
+        res["polls"], res["ids_listed"], res["listed_after_s"] = polls, len(ids), round(time.time() - t0, 2)
+        if ids:
+            try:
+                c = http.client.HTTPConnection("127.0.0.1", port, timeout=10)
+                c.request("GET", "/agent/request", headers={"X-Inverting-Proxy-Backend-ID": "verif", "X-Inverting-Proxy-Request-ID": ids[0]})
+                c.getresponse().read()
+                c = http.client.HTTPConnection("127.0.0.1", port, timeout=10)
+                c.request("POST", "/agent/response", body=b"HTTP/1.1 200 OK\r\nContent-Length: 4\r\n\r\nlate", headers={"X-Inverting-Proxy-Backend-ID": "verif", "X-Inverting-Proxy-Request-ID": ids[0]})
+                c.getresponse().read()
+            except Exception as e:     # noqa
+                res["agent_err"] = repr(e)[:120]
+        th.join(25)
+        res.update(out)
+        res.pop("client_sent_at", None)
+    finally:
+        proc.kill()
+        proc.wait()
+    return res
